@@ -89,6 +89,82 @@ class Program:
             self.by_rel[rel] = mi
         for mi in self.modules.values():
             self._index(mi)
+        self.normalised_calls = 0
+        if not os.environ.get("WRAPSA_RAW_CALLS"):
+            self._normalise_calls()
+
+    # ------------------------------------------------------------------ call normal form
+    def _normalise_calls(self):
+        """One spelling for the arguments of calls to the program's own functions: an argument passed by keyword that could
+        have been passed by position (it is the next positional parameter of the callee) is moved to its position.  Rules
+        read `call.args[k]`; without this `f(x, b=y)` and `f(x, y)` would be two shapes.  The callee is taken by name -
+        `self.m`, `cls.m`, `<Class>.m`, `<module alias>.f`, `f`, `<Class>(...)` - and only when every definition of that name in
+        the program has the same positional parameter list.  Line numbers are untouched; keyword-only parameters and
+        keywords behind a gap stay keywords."""
+        sigs: Dict[str, List[Tuple[str, ...]]] = {}
+        for mi in self.modules.values():
+            for qual, ci in mi.classes.items():
+                init = ci.methods.get("__init__")
+                if init is not None and not init.args.vararg and not init.args.posonlyargs:
+                    sigs.setdefault(ci.name, []).append(tuple(a.arg for a in init.args.args[1:]))
+                for mname, fn in ci.methods.items():
+                    if fn.args.vararg or fn.args.posonlyargs or mname.startswith("__"):
+                        continue
+                    static = any(isinstance(d, ast.Name) and d.id == "staticmethod" for d in fn.decorator_list)
+                    ps = [a.arg for a in fn.args.args]
+                    sigs.setdefault(mname, []).append(tuple(ps if static else ps[1:]))
+            for fname, fn in mi.functions.items():
+                if not fn.args.vararg and not fn.args.posonlyargs:
+                    sigs.setdefault(fname, []).append(tuple(a.arg for a in fn.args.args))
+            for fn in ast.walk(mi.tree):          # helpers defined inside functions
+                if isinstance(fn, ast.FunctionDef) and not isinstance(getattr(fn, "_parent", None), (ast.Module, ast.ClassDef)) \
+                        and not fn.args.vararg and not fn.args.posonlyargs:
+                    sigs.setdefault(fn.name, []).append(tuple(a.arg for a in fn.args.args))
+        for mi in self.modules.values():
+            aliases = {k for k, v in mi.imports.items() if v[0] == "module"}
+            for c in ast.walk(mi.tree):
+                if not isinstance(c, ast.Call) or not c.keywords or any(isinstance(a, ast.Starred) for a in c.args) or any(k.arg is None for k in c.keywords):
+                    continue
+                f = c.func
+                if isinstance(f, ast.Name):
+                    name = f.id
+                elif isinstance(f, ast.Attribute) and isinstance(f.value, ast.Name) and (
+                        f.value.id in ("self", "cls") or f.value.id in aliases or f.value.id in self.classes or f.value.id[:1].isupper()):
+                    name = f.attr
+                else:
+                    continue
+                cands = set(sigs.get(name, []))
+                if isinstance(f, ast.Attribute) and f.value.id in ("self", "cls"):
+                    # a call on the object itself: the method of the enclosing class (or of a base / mixin), when it defines one
+                    k_ = c
+                    while k_ is not None and not isinstance(k_, ast.ClassDef):
+                        k_ = getattr(k_, "_parent", None)
+                    own = None
+                    if k_ is not None:
+                        for ci_ in self.classes.get(k_.name, []):
+                            if ci_.node is k_:
+                                m_ = self.find_method(ci_, name)
+                                if m_ is not None and not m_[1].args.vararg and not m_[1].args.posonlyargs:
+                                    static = any(isinstance(d, ast.Name) and d.id == "staticmethod" for d in m_[1].decorator_list)
+                                    ps = [a.arg for a in m_[1].args.args]
+                                    own = tuple(ps if static else ps[1:])
+                    if own is not None:
+                        cands = {own}
+                if len(cands) != 1:
+                    continue
+                params = next(iter(cands))
+                moved = False
+                while len(c.args) < len(params):
+                    nxt = params[len(c.args)]
+                    k = next((k for k in c.keywords if k.arg == nxt), None)
+                    if k is None:
+                        break
+                    c.keywords.remove(k)
+                    k.value._parent = c  # type: ignore[attr-defined]
+                    c.args.append(k.value)
+                    moved = True
+                if moved:
+                    self.normalised_calls += 1
 
     # ------------------------------------------------------------------ indexing
     def _index(self, mi: ModuleInfo):
@@ -284,6 +360,17 @@ def bind_call(fn: ast.FunctionDef, call: ast.Call, drop_self: bool) -> Dict[str,
         else:
             out[kw.arg] = kw.value
     return out
+
+
+def bound_args(fn: ast.FunctionDef, call: ast.Call) -> Dict[str, ast.expr]:
+    """Parameter name -> argument expression of a call of fn, however the argument is passed (position or keyword);
+    `self` / `cls` is dropped for methods that are not static.  {} when the call does not bind."""
+    drop = bool(fn.args.args) and fn.args.args[0].arg in ("self", "cls") and \
+        not any(isinstance(d, ast.Name) and d.id == "staticmethod" for d in fn.decorator_list)
+    try:
+        return {k: v for k, v in bind_call(fn, call, drop_self=drop).items() if not k.startswith("<")}
+    except AnalysisError:
+        return {}
 
 
 def required_params(fn: ast.FunctionDef, drop_self: bool) -> List[str]:
